@@ -231,8 +231,9 @@ class EIG(BaseRoutine):
         pfactor = pfactor.T
 
         # --- normalize participation factor ---
+        # after the transpose each row holds one mode: divide it by the sum over the states of that mode
         for item in range(n_state):
-            pfactor[:, item] /= W_abs[item]
+            pfactor[item, :] /= W_abs[item]
         pfactor = np.round(pfactor, 5)
 
         return mu, pfactor, N, W
